@@ -3,8 +3,8 @@
    (alias: field->$.a.b[0], alias: field->2, filters on a selector).
    One evaluator, parameterised by the meaning of an aggregate over the rows of a group:
      agg_spec = the reference meaning (absent values do not take part; min / max by the order of the values)
-     agg_impl = what query.rs computes: every aggregate is applied to  _json->'$.f' , the JSON TEXT of the value
-                (null for an absent one): min / max compare texts, avg divides by the number of rows of the group.
+     agg_impl = what query.rs computes: every aggregate is applied to the SQL value of the member, NULL left out
+                (before b717988 it was applied to the JSON text: classes 9 and 10, repaired).
    Results only (no SQL text at this tier).  No proofs here. *)
 From DV Require Export Eval Codec Sql.
 Open Scope list_scope.
@@ -69,31 +69,21 @@ Definition agg_spec (rows : list row) (a : afn) : cell :=
   | AMin f => CV (best vcmp Lt (nonnull (column rows f)))
   end.
 
-(* the JSON text of a stored value (serde_json) *)
-Definition json_q4 (q : Z) : str :=
-  let a := Z.abs q in
-  (if Z.ltb q 0 then [45%N] else []) ++ dec_N (Z.to_N (a / 4)) ++
-  match a mod 4 with 0 => lit ".0" | 1 => lit ".25" | 2 => lit ".5" | _ => lit ".75" end.
-Definition jtext (v : val) : str :=
-  match v with
-  | VNull => lit "null"
-  | VBool true => lit "true"
-  | VBool false => lit "false"
-  | VInt z => dec_Z z
-  | VFlt q => json_q4 q
-  | VStr s => 34%N :: json_esc s ++ [34%N]
-  end.
-Definition tcmp (a b : val) : comparison := str_cmp (jtext a) (jtext b).
+(* query.rs (get_fields, since b717988): every aggregate is applied to  _json->>'$.f' , the SQL value of the member
+   (a number as a number, text as text, NULL for an absent value or a JSON null); SQL aggregates leave NULL out,
+   avg divides by the number of values that are not NULL, min / max of no value is NULL, total of no value is 0.0 *)
+Definition sql_values (rows : list row) (f : nat) : list val :=        (* the arguments that are not NULL *)
+  flat_map (fun r => match fval r f with VNull => [] | v => [v] end) rows.
 Definition agg_impl (rows : list row) (a : afn) : cell :=
   match a with
   | ACount => CV (VInt (Z.of_nat (List.length rows)))
-  | ASum f => CV (VFlt (sum4 (column rows f)))
-  | AAvg f => match column rows f with
+  | ASum f => CV (VFlt (sum4 (sql_values rows f)))
+  | AAvg f => match sql_values rows f with
               | [] => CV VNull
-              | vs => CAvg (sum4 vs) (Z.of_nat (List.length vs))       (* the text null counts as 0 *)
+              | vs => CAvg (sum4 vs) (Z.of_nat (List.length vs))
               end
-  | AMax f => CV (best tcmp Gt (column rows f))
-  | AMin f => CV (best tcmp Lt (column rows f))
+  | AMax f => CV (best vcmp Gt (sql_values rows f))
+  | AMin f => CV (best vcmp Lt (sql_values rows f))
   end.
 
 (* ---- cells: order and comparison with a literal ---- *)
